@@ -95,7 +95,7 @@ pub fn observe_interrupted(sess: &mut dyn Driver, p: &Pos, out: &Outcome, fresh:
     // (b) follow-up `go depth 1` without `position`
     let o2 = match search(sess, None, &GoSpec::depth(1)) {
         Ok(o) => o,
-        Err(e) if e == "watchdog" => { rep.inconclusive("watchdog fired"); return false; }
+        Err(e) if e.starts_with("watchdog") => { rep.inconclusive("watchdog fired"); return false; }
         Err(e) => { rep.violation("engine-dead-after-interrupted-search", format!("{}: {}", p.to_fen(), e), replay.clone()); return false; }
     };
     rep.eval();
@@ -151,7 +151,7 @@ pub fn enumerate(p: &Pos, depth: u64, stride: u64, rep: &mut Report) {
             hook::stop_at_node(0);
             let out = match out {
                 Ok(o) => o,
-                Err(e) if e == "watchdog" => { rep.inconclusive("watchdog fired"); break; }
+                Err(e) if e.starts_with("watchdog") => { rep.inconclusive("watchdog fired"); break; }
                 Err(e) => { rep.violation("engine-dead-during-interrupted-search", format!("{} depth {} {} at {}: {}", fen, depth, kind, n, e), replay); break; }
             };
             let dump = out.board_dump().and_then(|d| parse_dump(d));
@@ -212,7 +212,7 @@ pub fn consecutive(p: &Pos, depth: u64, rng: &mut StdRng, rep: &mut Report, tota
         hook::stop_at_node(0);
         match out {
             Ok(o) => { rep.eval(); if !observe_interrupted(&mut sess, p, &o, &fresh, rep, &replay, "consecutive", i + 1 == points.len()) { break; } }
-            Err(e) if e == "watchdog" => { rep.inconclusive("watchdog fired"); break; }
+            Err(e) if e.starts_with("watchdog") => { rep.inconclusive("watchdog fired"); break; }
             Err(e) => { rep.violation("engine-dead-during-interrupted-search", format!("{}: {}", fen, e), replay.clone()); break; }
         }
     }
@@ -240,10 +240,16 @@ pub fn real_schedule(sess_factory: &mut dyn FnMut() -> Option<Box<dyn Driver>>, 
             std::thread::sleep(Duration::from_micros(us));
             let _ = sess.send(&Gui::Stop);
             rep.count(&format!("stop_after_{}us", us));
+            // a GUI that does not wait for the answer: the same position again right behind the stop,
+            // so that both messages are found in the mailbox at one poll
+            if rng.gen_bool(0.4) {
+                let _ = sess.send(&Gui::Position { fen: Some(fen.clone()), moves: vec![] });
+                rep.count("stop_and_same_position_back_to_back");
+            }
         } else {
             rep.count("movetime_expiry");
         }
-        let out = match sess.until_bestmove(WATCHDOG) {
+        let out = match sess.await_bestmove(WATCHDOG) {
             Ok(o) => collect(o),
             Err((WaitErr::Timeout, _)) => { rep.inconclusive("watchdog fired"); return; }
             Err((WaitErr::Disconnected, _)) => { rep.violation("engine-dead-during-interrupted-search", format!("{}: output closed", fen), replay); return; }
@@ -254,13 +260,29 @@ pub fn real_schedule(sess_factory: &mut dyn FnMut() -> Option<Box<dyn Driver>>, 
         }
         if !observe_interrupted(sess.as_mut(), p, &out, &fresh, rep, &replay, how, true) { return; }
     }
-    // quit during a search: the thread must come down cleanly
+    // quit during a search: the thread must come down cleanly and the interrupted search must still
+    // have been answered by exactly one bestmove (a legal move of the held position)
     if rng.gen_bool(0.5) {
+        let _ = sess.drain(Duration::from_millis(1));
         let _ = sess.send(&Gui::Go(GoSpec { infinite: true, ..Default::default() }));
-        std::thread::sleep(Duration::from_millis(rng.gen_range(0..30)));
+        std::thread::sleep(Duration::from_millis(rng.gen_range(0..200)));
         rep.count("quit_during_search");
+        let replay = json!({"kind":"c09-real","fen":fen,"quit":true,"app":app});
         if let Err(e) = sess.send(&Gui::Quit) {
-            rep.violation("quit-during-search-failed", format!("{}: {}", fen, e), json!({"kind":"c09-real","fen":fen,"quit":true}));
+            rep.violation("quit-during-search-failed", format!("{}: {}", fen, e), replay.clone());
+        }
+        // in-process: accept(Quit) has joined the search thread, everything it sent is in the channel;
+        // app: the process exits after quit, read until its output closes
+        let outs = sess.drain(Duration::from_millis(if app { 3000 } else { 50 }));
+        let answers: Vec<&Out> = outs.iter().filter(|o| matches!(o, Out::BestMove { .. })).collect();
+        rep.eval();
+        if answers.len() != 1 {
+            rep.violation(&format!("search-interrupted-by-quit-answered-{}-times", answers.len()), format!("{}: go infinite, quit: {} bestmove answers", fen, answers.len()), replay.clone());
+        } else if let Out::BestMove { best, .. } = answers[0] {
+            let legal: Vec<String> = p.legal_moves().iter().map(|m| m.uci()).collect();
+            if best.as_ref().map_or(true, |b| !legal.contains(b)) {
+                rep.violation("search-interrupted-by-quit-answers-illegal-move", format!("{}: {:?}", fen, best), replay);
+            }
         }
     }
 }
